@@ -1,7 +1,8 @@
 (* C09 — Package envelopes round-trip and carry the documented header. *)
-From Coq Require Import NArith List Bool Arith.
+From Coq Require Import NArith String List Bool Arith.
 Import ListNotations.
 From HV Require Import lib.Harness model.Envelope proofs.EnvelopeP.
+From HV Require Import gen.EnvelopeRust gen.EnvelopePy model.EnvelopeRustM proofs.EnvelopeRustP.
 Open Scope N_scope.
 
 (* the first ten bytes: magic number, format byte, flags with bit 0 = compressed and bits 7,6 = 0,1 *)
@@ -79,7 +80,95 @@ Section Oracles.
     exists c, r = make_envelope package json_payload compress q c \/
               r = make_envelope_str package json_payload compress utf8_ok q c.
   Proof. exact (history_fresh package json_payload compress utf8_ok). Qed.
+
+  (* (deepening) every envelope the model makes, for every configuration, starts with a header that the
+     DOCUMENTED reader (EnvelopeHeader::read of header.rs over the scanned constants) accepts with the same
+     format and the same compression flag *)
+  Theorem C09_rust_reads_envelope : forall p c e,
+    make_envelope package json_payload compress p c = Ok e ->
+    rust_read e = ROk (rust_name (cformat c)) (match czstd c with Some _ => true | None => false end).
+  Proof. exact (rust_reads_envelope package json_payload compress). Qed.
+  (* text encoding is offered only for the formats header.rs declares ASCII-printable *)
+  Theorem C09_str_only_rust_printable : forall p c e,
+    make_envelope_str package json_payload compress utf8_ok p c = Ok e ->
+    rust_variant_ascii_printable (rust_name (cformat c)) = true.
+  Proof. exact (str_only_rust_printable package json_payload compress utf8_ok). Qed.
 End Oracles.
+
+(* ---- (deepening) "the documented header": the constants of hugr-core/src/envelope/header.rs, scanned on every
+   run into gen/EnvelopeRust.v, and the module-level constants of hugr/envelope.py, read by import into
+   gen/EnvelopePy.v.  All of the following are re-proved on every run against the regenerated constants. *)
+
+(* the model's magic bytes are the scanned ones *)
+Theorem C09_rust_magic : rust_magic = MAGIC.
+Proof. exact rust_magic_is_model. Qed.
+(* the set of known formats and each format byte: the variants of `enum EnvelopeFormat` with their
+   discriminants are exactly the model's formats with their format bytes *)
+Theorem C09_rust_formats : forall name v,
+  In (name, v) rust_formats <-> exists f, name = rust_name f /\ v = fmt_value f.
+Proof. exact rust_formats_are_model. Qed.
+(* the set of ASCII-printable formats *)
+Theorem C09_rust_ascii_printable :
+  (forall name, In name rust_ascii_printable <-> exists f, name = rust_name f /\ ascii_printable f = true) /\
+  (forall f, rust_variant_ascii_printable (rust_name f) = ascii_printable f).
+Proof. exact (conj rust_printable_are_model rust_ascii_printable_is_model). Qed.
+(* flag layout: the byte `write` builds has bits 7,6 = 0,1 and bit 0 = zstd and is the model's; the mask `read`
+   applies selects bit 0 *)
+Theorem C09_rust_flag_layout :
+  (forall z : bool, let flags := N.lor rust_flags_base (if z then 1 else 0) in
+     N.testbit flags 7 = false /\ N.testbit flags 6 = true /\ N.testbit flags 0 = z /\
+     flags = N.lor 64 (if z then 1 else 0)) /\
+  (forall fl, negb (N.land fl rust_zstd_mask =? 0) = N.testbit fl 0).
+Proof. exact rust_flag_layout. Qed.
+(* the three fields `read` consumes add up to the ten bytes the model writes (and to the stated length) *)
+Theorem C09_rust_header_length : forall h,
+  (rust_magic_read_len + rust_format_read_len + rust_flags_read_len)%nat = length (header_to_bytes h) /\
+  length rust_magic = rust_magic_read_len /\
+  (forall n, rust_header_len_stated = Some n -> n = length (header_to_bytes h)).
+Proof. exact rust_header_length. Qed.
+
+(* for ALL byte strings: the documented reader accepts exactly what the model's decoder accepts, with the same
+   format and compression flag; answers with nothing but the model's formats; rejects exactly what the model
+   rejects with ValueError *)
+Theorem C09_rust_reader_accepts_iff : forall d f z,
+  rust_read d = ROk (rust_name f) z <-> header_from_bytes d = Ok {| hformat := f; hzstd := z |}.
+Proof. exact rust_reader_accepts_iff. Qed.
+Theorem C09_rust_reader_only_known : forall d v z, rust_read d = ROk v z -> exists f, v = rust_name f.
+Proof. exact rust_reader_only_known. Qed.
+Theorem C09_rust_reader_rejects_iff : forall d,
+  (exists e, rust_read d = RErr e) <-> header_from_bytes d = Err ValueError.
+Proof. exact rust_reader_rejects_iff. Qed.
+(* shorter than a header, different magic number, unknown format byte: rejected by the documented reader too *)
+Theorem C09_rust_reader_rejects : forall d,
+  (length d < 10)%nat \/ firstn 8 d <> MAGIC \/ (nth 8 d 0 <> 1 /\ nth 8 d 0 <> 2 /\ nth 8 d 0 <> 63) ->
+  exists e, rust_read d = RErr e.
+Proof. exact rust_reader_rejects. Qed.
+(* the header the MODEL writes is read back by the documented reader; the header the documented WRITER writes
+   is the model's and is read back by the model's decoder *)
+Theorem C09_rust_reads_model_header : forall h rest,
+  rust_read (header_to_bytes h ++ rest) = ROk (rust_name (hformat h)) (hzstd h).
+Proof. exact rust_reads_model_header. Qed.
+Theorem C09_rust_write_is_model : forall h,
+  rust_write (rust_name (hformat h)) (hzstd h) = Some (header_to_bytes h).
+Proof. exact rust_write_is_model. Qed.
+Theorem C09_model_reads_rust_header : forall f z w rest,
+  rust_write (rust_name f) z = Some w -> header_from_bytes (w ++ rest) = Ok {| hformat := f; hzstd := z |}.
+Proof. exact model_reads_rust_header. Qed.
+
+(* Python's module-level constants equal Rust's (names related by the hand-written table py_name / rust_name
+   only): editing either side breaks these, with the differing constant as the failing input *)
+Theorem C09_python_magic_is_rust : py_magic = rust_magic.
+Proof. exact python_magic_is_rust. Qed.
+Theorem C09_python_formats_are_rust :
+  (forall pn v, In (pn, v) py_formats <-> exists f, pn = py_name f /\ rust_discriminant (rust_name f) = Some v) /\
+  (forall rn v, In (rn, v) rust_formats -> exists f, rn = rust_name f).
+Proof. exact python_formats_are_rust. Qed.
+Theorem C09_python_printable_are_rust : forall pn,
+  In pn py_ascii_printable <-> exists f, pn = py_name f /\ rust_variant_ascii_printable (rust_name f) = true.
+Proof. exact python_printable_are_rust. Qed.
+Theorem C09_python_formats_are_model : forall pn v,
+  In (pn, v) py_formats <-> exists f, pn = py_name f /\ v = fmt_value f.
+Proof. exact python_formats_are_model. Qed.
 
 Example C09_example : header_from_bytes (MAGIC ++ [63; 65; 1; 2; 3]) = Ok {| hformat := JSON; hzstd := true |}.
 Proof. reflexivity. Qed.
@@ -90,3 +179,21 @@ Print Assumptions C09_header_sweep.
 Print Assumptions C09_envelope_roundtrip.
 Print Assumptions C09_str_roundtrip.
 Print Assumptions C09_history_roundtrip.
+Print Assumptions C09_rust_magic.
+Print Assumptions C09_rust_formats.
+Print Assumptions C09_rust_ascii_printable.
+Print Assumptions C09_rust_flag_layout.
+Print Assumptions C09_rust_header_length.
+Print Assumptions C09_rust_reader_accepts_iff.
+Print Assumptions C09_rust_reader_only_known.
+Print Assumptions C09_rust_reader_rejects_iff.
+Print Assumptions C09_rust_reader_rejects.
+Print Assumptions C09_rust_reads_model_header.
+Print Assumptions C09_rust_write_is_model.
+Print Assumptions C09_model_reads_rust_header.
+Print Assumptions C09_rust_reads_envelope.
+Print Assumptions C09_str_only_rust_printable.
+Print Assumptions C09_python_magic_is_rust.
+Print Assumptions C09_python_formats_are_rust.
+Print Assumptions C09_python_printable_are_rust.
+Print Assumptions C09_python_formats_are_model.
